@@ -90,6 +90,13 @@ def main():
                 if ax is None or not set(ax) <= common.ALLOWED_AXIOMS:
                     unproved.append(t)
 
+        state.leanchecker = None
+        if state.build_ok and args.tier == 'thorough' and not unproved:
+            ok, log = common.leanchecker([mod.MODULE] + list(getattr(mod, 'EXTRA_IMPORTS', [])))
+            state.leanchecker = 'ok' if ok else 'FAILED: ' + log[-400:]
+            if not ok:
+                unproved.append('(leanchecker rejected the compiled module)')
+
         if vakt_import_error is not None:
             print('BROKEN: /repo/vakt does not import: %r' % (vakt_import_error,))
             return 2
